@@ -935,8 +935,8 @@ fn main() {
             });
         }
     }
-    let n_two = args.cases(26, 360);
-    let n_three = args.cases(14, 200);
+    let n_two = args.cases(26, 240);
+    let n_three = args.cases(14, 120);
     // the exhaustive small scope: all of it in the thorough tier, a seed-dependent sample otherwise
     let exh_all = exhaustive();
     let exh: Vec<Vec<Step>> = if args.thorough() || args.budget > 1 {
